@@ -417,7 +417,7 @@ def main():
   chk = Check('C16', tier)
   from corpus import vcd_designs as VD
   K = 3 if tier == 'quick' else 5
-  items = [dict(name='rendering', kind='render')] + [dict(name=n, K=K) for n in VD.DESIGNS] + [dict(name=n, K=K, reset='sym') for n in VD.SYM_RESET] + [dict(name=n, K=K - 1, pre='sim_reset') for n in VD.DESIGNS if n != 'VMany']
+  items = [dict(name='rendering', kind='render')] + [dict(name=n, K=K) for n in VD.DESIGNS] + [dict(name=n, K=min(K, 4), reset='sym', max_paths=80000) for n in VD.SYM_RESET] + [dict(name=n, K=K - 1, pre='sim_reset') for n in VD.DESIGNS if n != 'VMany']
   for it, r in pmap(dispatch, items, item_timeout=900 if tier == 'quick' else 3600):
     chk.absorb(it, r)
   chk.bounds = dict(designs=list(VD.DESIGNS), cycles=K, inputs='every top-level input symbolic in every cycle, from the power-on state', reset='held low; symbolic in every cycle for ' + ', '.join(VD.SYM_RESET) + '; every design except VMany also after the real sim_reset() (K-1 further symbolic cycles)')
